@@ -106,7 +106,13 @@ class Context:
         return self._ufs[name]
 
     def bxor(self, a, b):
-        return self.uf('bxor', T.I, T.I, T.I)(a, b)
+        f = self.uf('bxor', T.I, T.I, T.I)
+        if not getattr(self, '_bxor_ax', False):
+            self._bxor_ax = True
+            x, y = z3.Ints('bx by')
+            self.fact_axioms.append(z3.ForAll([x, y], z3.Implies(z3.And(0 <= x, x < 256, 0 <= y, y < 256),
+                                                                 z3.And(0 <= f(x, y), f(x, y) < 256)), patterns=[f(x, y)]))
+        return f(a, b)
 
     def bor(self, a, b):
         return self.uf('bor', T.I, T.I, T.I)(a, b)
@@ -787,6 +793,11 @@ class Context:
             return VBool(I.fresh(name, T.B))
         if n == 'NoneT':
             return NONE
+        if n == 'ClassRef':
+            ci = self.find_class(ty.args[0])
+            if ci is None:
+                raise Unsupported('ClassRef(%s): class not found' % ty.args[0])
+            return VClass(ci)
         if n == 'TupleObj':
             return VSeq(I.fresh(name, T.SeqO.sort), 'tuple', T.SeqO)
         if n in ('Bytes', 'Str', 'Latin1', 'SeqInt', 'IntSeq', 'SeqBytes', 'SeqStr', 'SeqObj'):
@@ -932,6 +943,19 @@ class Context:
         f, _ = self.spec_funcs[sp.name]
         if len(args) != len(sp.params):
             raise Unsupported('spec function %s arity' % sp.name, node)
+        if sp.kw.get('inline') and not sp.recursive:
+            # macro expansion: the body is built with the caller's argument terms (keeps concatenations right-nested)
+            env = {}
+            for a, (p_, ty) in zip(args, sp.params):
+                env[p_] = self.from_term(I, self.to_term(I, a, ty, node), ty)
+            fr = Frame(env, None, sidecar=sp.sidecar)
+            fr.spec = SpecCtx()
+            I.pure += 1
+            try:
+                body = self.pure_body(I, list(sp.node.body), fr)
+            finally:
+                I.pure -= 1
+            return self.from_term(I, self.to_term(I, body, sp.ret), sp.ret)
         ts = [self.to_term(I, a, ty, node) for a, (_, ty) in zip(args, sp.params)]
         if sp.recursive and not sp.uninterpreted:
             fl = fuel if fuel is not None else (I.spec_fuel if getattr(I, 'spec_fuel', None) is not None else self.top_fuel())
@@ -1257,6 +1281,19 @@ class Context:
                 self.qcount += 1
                 return VOpaque(z3.Const('missing-event!%d' % self.qcount, T.Obj), 'missing')
             return evs[k].recv[0]
+        if fn == 'py_lower':
+            from .builtins_model import Lower
+            v = I.seq_of(I.ev(node.args[0], frame), node)
+            return VSeq(Lower(v.t), 'list')
+        if fn == 'py_replace':
+            a0, a1, a2 = [I.seq_of(I.ev(x, frame), node) for x in node.args[:3]]
+            return VSeq(self.uf('str_replace', S.sort, S.sort, S.sort, S.sort)(a0.t, a1.t, a2.t), 'list')
+        if fn == 'py_utf8':
+            from .builtins_model import Utf8
+            v = I.seq_of(I.ev(node.args[0], frame), node)
+            return VSeq(Utf8(v.t), 'list')
+        if fn == 'bxor':
+            return VInt(self.bxor(I.as_int(I.ev(node.args[0], frame)), I.as_int(I.ev(node.args[1], frame))))
         if fn == 'field':
             o = I.unwrap(I.ev(node.args[0], frame))
             nm = self.const_str(I, I.ev(node.args[1], frame))
